@@ -90,7 +90,7 @@ int Driver::go(int argc, char* argv[])
             && runPreCPP(cmdOpts, files)
             && runCPP(cmdOpts, files)
             && runCFrontEnd(cmdOpts, files)
-            && !compilation_->isEmpty()
+            && (cmdOpts.syntax_only_ || !compilation_->isEmpty())
             && analyze(cmdOpts)) {
         return subCmdArgs.empty()
                 ? 0
